@@ -707,6 +707,87 @@ static void stage_dict(void) {
         }
 }
 
+
+/* ---- sizes at the boundaries of internal representations ------------------------------------------------------------ */
+static void stage_scale(void) {
+    /* (1) RLE run lengths at the 1/2/3/4/5-byte boundaries of the run header varint (header = length << 1): 2^6, 2^13, 2^20, 2^27 */
+    mc_stage("scale.hybrid.run-header-varint-boundaries");
+    { static const int64_t R[] = { 63, 64, 65, 8191, 8192, 8193, (1 << 20) - 1, 1 << 20, (1 << 20) + 1, (1 << 27) - 1, 1 << 27, (1 << 27) + 9 };
+      for (int ri = 0; ri < 12; ri++) for (int bwi = 0; bwi < 3; bwi++) {
+          static const int BW[] = { 1, 3, 8 }; int bw = BW[bwi]; int64_t run = R[ri]; if (run > (1 << 21) && bw != 1 && !mc_thorough()) continue;
+          if (!mc_next()) continue;
+          mc_desc("hybrid:scale;bw=%d;head=5-literals;run=%lld;tail=3-literals", bw, (long long)run); mc_case_key(mc_mix(0x5c1, ((uint64_t)ri << 8) | (uint64_t)bw)); mc_nontrivial(); mc_budget_ms(120000);
+          uint32_t mx = (1u << bw) - 1, head[5] = { 1 & mx, 0, mx, 0, 1 & mx }, runv = mx > 1 ? mx - 1 : 1, tail[3] = { 0, mx, 0 };
+          uint8_t* enc = NULL; size_t en = 0;
+          if (!C12) { carquet_buffer_t b; carquet_buffer_init(&b); carquet_rle_encoder_t e; carquet_rle_encoder_init(&e, &b, bw); carquet_status_t st = CARQUET_OK;
+              for (int i = 0; i < 5 && st == CARQUET_OK; i++) st = carquet_rle_encoder_put(&e, head[i]); if (st == CARQUET_OK) st = carquet_rle_encoder_put_repeat(&e, runv, run); for (int i = 0; i < 3 && st == CARQUET_OK; i++) st = carquet_rle_encoder_put(&e, tail[i]);
+              if (st == CARQUET_OK) st = carquet_rle_encoder_flush(&e);
+              if (st != CARQUET_OK) { mc_count("scale.rle.encoder_rejected", 1); carquet_buffer_destroy(&b); continue; }
+              enc = mc_exact(b.data, b.size); en = b.size; carquet_buffer_destroy(&b); }
+          else { ref_buf rb; ref_buf_init(&rb); ref_buf_uleb(&rb, (1u << 1) | 1); uint64_t lit[8] = { head[0], head[1], head[2], head[3], head[4], runv, runv, runv }; ref_bitpack(lit, 8, bw, &rb);      /* one bit-packed group: 5 literals + 3 of the run */
+              ref_buf_uleb(&rb, (uint64_t)(run - 3) << 1); for (int i = 0; i < (bw + 7) / 8; i++) ref_buf_u8(&rb, (uint8_t)(runv >> (8 * i)));
+              ref_buf_uleb(&rb, (1u << 1) | 1); uint64_t tl[8] = { tail[0], tail[1], tail[2], 0, 0, 0, 0, 0 }; ref_bitpack(tl, 8, bw, &rb); enc = mc_exact(rb.p, rb.n); en = rb.n; ref_buf_free(&rb); }
+          /* streaming decoder: first 5, skip most of the run, the rest value by value */
+          carquet_rle_decoder_t d; carquet_rle_decoder_init(&d, enc, en, bw); bool ok = true; char why[120] = "";
+          for (int i = 0; i < 5 && ok; i++) { uint32_t g = carquet_rle_decoder_get(&d); if (g != head[i]) { ok = false; snprintf(why, sizeof why, "literal %d is %u, stored %u", i, g, head[i]); } }
+          int64_t sk = run - 4; if (ok) { int64_t g = carquet_rle_decoder_skip(&d, sk); if (g != sk) { ok = false; snprintf(why, sizeof why, "skip(%lld) inside the run skipped %lld (decoder status %d)", (long long)sk, (long long)g, (int)carquet_rle_decoder_status(&d)); } }
+          for (int i = 0; i < 4 && ok; i++) { uint32_t g = carquet_rle_decoder_get(&d); if (g != runv) { ok = false; snprintf(why, sizeof why, "value %d before the end of the run is %u, stored %u", i, g, runv); } }
+          for (int i = 0; i < 3 && ok; i++) { uint32_t g = carquet_rle_decoder_get(&d); if (g != tail[i]) { ok = false; snprintf(why, sizeof why, "literal %d after the run is %u, stored %u", i, g, tail[i]); } }
+          if (!ok) FAILF(C12 ? "scale.hybrid.ref-encoded.stream-decoder" : "scale.hybrid.self.stream-decoder", "bw=%d run=%lld: %s", bw, (long long)run, why);
+          /* one-shot decoders (up to 2^20+1 values) */
+          if (run <= (1 << 20) + 1) { int64_t n = run + 8; uint32_t* o = malloc(sizeof(uint32_t) * (size_t)n + 64); int16_t* lv = malloc(sizeof(int16_t) * (size_t)n + 64);
+              int64_t g1 = carquet_rle_decode_all(enc, en, bw, o, n); bool ok1 = g1 >= n; for (int64_t i = 0; ok1 && i < n; i++) { uint32_t w = i < 5 ? head[i] : i < 5 + run ? runv : tail[i - 5 - run]; ok1 = o[i] == w; }
+              if (!ok1) FAILF(C12 ? "scale.hybrid.ref-encoded.decode-all" : "scale.hybrid.self.decode-all", "bw=%d run=%lld: decode_all returned %lld of %lld or wrong values", bw, (long long)run, (long long)g1, (long long)n);
+              int64_t g2 = carquet_rle_decode_levels(enc, en, bw, lv, n); bool ok2 = g2 >= n; for (int64_t i = 0; ok2 && i < n; i++) { uint32_t w = i < 5 ? head[i] : i < 5 + run ? runv : tail[i - 5 - run]; ok2 = (uint32_t)(uint16_t)lv[i] == w; }
+              if (!ok2) FAILF(C12 ? "scale.hybrid.ref-encoded.decode-levels" : "scale.hybrid.self.decode-levels", "bw=%d run=%lld: decode_levels returned %lld of %lld or wrong values", bw, (long long)run, (long long)g2, (long long)n);
+              free(o); free(lv); }
+          free(enc);
+      } }
+    /* (2) byte stream split beyond one internal tile */
+    mc_stage("scale.bss.counts-around-tiles");
+    { static const int CN[] = { 1023, 1024, 1025, 4095, 4096, 4097, 5000, 8192, 8193, 10000 }; static const int WD[] = { 1, 2, 4, 8, 12, 16 };
+      for (int ci = 0; ci < 10; ci++) for (int wi = 0; wi < 6; wi++) for (int api = 0; api < 2; api++) {
+          int count = CN[ci], width = WD[wi]; if (api == 1 && width != 4 && width != 8) continue;
+          if (!mc_next()) continue;
+          mc_desc("bss:scale;width=%d;count=%d;api=%s", width, count, api ? "typed" : "generic"); mc_case_key(mc_mix(0x5c2, ((uint64_t)ci << 16) | ((uint64_t)wi << 4) | (uint64_t)api)); mc_nontrivial();
+          size_t nb = (size_t)width * (size_t)count; uint8_t* v = mc_exact(NULL, nb + 1); for (size_t i = 0; i < nb; i++) v[i] = (uint8_t)(((i / (size_t)width) * 17 + (i % (size_t)width) * 101 + 3) ^ (i >> 8) ^ (i >> 13));
+          uint8_t* enc = mc_exact(NULL, nb + 1); uint8_t* dec = mc_exact(NULL, nb + 1); size_t w = 0; carquet_status_t st;
+          if (!api) st = carquet_byte_stream_split_encode(v, count, width, enc, nb, &w); else if (width == 4) st = carquet_byte_stream_split_encode_float((const float*)v, count, enc, nb, &w); else st = carquet_byte_stream_split_encode_double((const double*)v, count, enc, nb, &w);
+          if (st != CARQUET_OK) mc_count("bss.encoder_rejected", 1);
+          else { if (w != nb) FAILF("scale.bss.written-size", "width=%d count=%d written %zu expected %zu", width, count, w, nb);
+              if (C12) { uint8_t* r = mc_exact(NULL, nb + 1); ref_bss_encode(v, count, width, r); if (memcmp(r, enc, nb)) FAILF("scale.bss.carquet-encoded.bytes", "width=%d count=%d: bytes differ from the specification's streams", width, count); memcpy(enc, r, nb); free(r); }
+              if (!api) st = carquet_byte_stream_split_decode(enc, nb, width, dec, count); else if (width == 4) st = carquet_byte_stream_split_decode_float(enc, nb, (float*)dec, count); else st = carquet_byte_stream_split_decode_double(enc, nb, (double*)dec, count);
+              if (st != CARQUET_OK || memcmp(dec, v, nb)) FAILF(C12 ? "scale.bss.ref-encoded.values" : "scale.bss.self.values", "width=%d count=%d api=%d status=%d", width, count, api, st); }
+          free(v); free(enc); free(dec);
+      } }
+    /* (3) byte-array dictionaries: all short sequences over 4 strings, and more distinct equal-length keys than the builder has hash buckets (1024) */
+    mc_stage("scale.dictionary.byte-arrays");
+    { static const char* SP[4] = { "", "a", "ab", "b" };
+      for (int big = 0; big < 2; big++) for (int n = 1; n <= (big ? 5 : 6); n++) { int total = big ? 1 : 1 << (2 * n);
+          for (int c = 0; c < total; c++) {
+              if (!mc_next()) continue;
+              static const int KN[] = { 0, 1023, 1024, 1025, 1500, 3000 }; int64_t cnt = big ? (int64_t)KN[n] * 3 : n; int distinct_keys = big ? KN[n] : 0;
+              mc_desc("dict:byte-arrays;%s;n=%lld;code=%d", big ? "distinct-keys" : "short", (long long)cnt, c); mc_case_key(mc_mix(0x5c3, ((uint64_t)big << 40) | ((uint64_t)n << 32) | (uint32_t)c)); mc_nontrivial();
+              carquet_byte_array_t* v = malloc(sizeof(*v) * (size_t)cnt + 16); char* pool = malloc(12 * (size_t)cnt + 16);
+              for (int64_t i = 0; i < cnt; i++) { if (big) { int k = (int)((i * 7) % distinct_keys); snprintf(pool + 12 * i, 12, "key%05d", k); v[i].data = (uint8_t*)(pool + 12 * i); v[i].length = 8; } else { const char* sx = SP[(c >> (2 * i)) & 3]; v[i].data = (uint8_t*)sx; v[i].length = (int32_t)strlen(sx); } }
+              carquet_buffer_t d, ix; carquet_buffer_init(&d); carquet_buffer_init(&ix); carquet_status_t st = carquet_dictionary_encode_byte_array(v, cnt, &d, &ix);
+              if (st != CARQUET_OK) mc_count("dict.ba.encoder_rejected", 1);
+              else if (ix.size < 1) FAILF("scale.dictionary.byte-arrays.no-index-stream", "n=%lld", (long long)cnt);
+              else { /* dictionary page = PLAIN byte arrays, indices = <bit width> <hybrid>; judged with the reference decoders (C12) or carquet's own (C11) */
+                  int64_t maxd = cnt; ref_str* ds = malloc(sizeof(ref_str) * (size_t)maxd + 16); carquet_byte_array_t* cds = malloc(sizeof(*cds) * (size_t)maxd + 16); uint32_t* idx = malloc(4 * (size_t)cnt + 64); int64_t nd = 0; bool bad = false; char why[100] = "";
+                  uint8_t* dd = mc_exact(d.data, d.size); uint8_t* ii = mc_exact(ix.data, ix.size);
+                  /* count dictionary entries by walking the PLAIN page */
+                  { size_t pos = 0; while (pos + 4 <= d.size && nd < maxd) { uint32_t L = (uint32_t)dd[pos] | (uint32_t)dd[pos + 1] << 8 | (uint32_t)dd[pos + 2] << 16 | (uint32_t)dd[pos + 3] << 24; if (pos + 4 + L > d.size) { bad = true; snprintf(why, sizeof why, "dictionary page entry %lld overruns the page", (long long)nd); break; } ds[nd].p = dd + pos + 4; ds[nd].n = L; nd++; pos += 4 + (size_t)L; } if (!bad && pos != d.size) { bad = true; snprintf(why, sizeof why, "dictionary page has %zu stray bytes", d.size - pos); } }
+                  if (!bad && !C12) { int64_t r = carquet_decode_plain_byte_array(dd, d.size, cds, nd); if (r < 0) { bad = true; snprintf(why, sizeof why, "carquet's PLAIN decoder rejects the dictionary page"); } else for (int64_t k = 0; k < nd; k++) { ds[k].p = cds[k].data; ds[k].n = (uint32_t)cds[k].length; } }
+                  if (!bad) { int64_t got = C12 ? ref_hybrid_decode(ii + 1, ix.size - 1, ii[0], idx, cnt, NULL) : carquet_rle_decode_all(ii + 1, ix.size - 1, ii[0], idx, cnt); if (got < cnt) { bad = true; snprintf(why, sizeof why, "index stream yields %lld of %lld indices", (long long)got, (long long)cnt); } }
+                  for (int64_t i = 0; i < cnt && !bad; i++) if (idx[i] >= (uint64_t)nd || ds[idx[i]].n != (uint32_t)v[i].length || memcmp(ds[idx[i]].p, v[i].data, (size_t)v[i].length)) { bad = true; snprintf(why, sizeof why, "value %lld decodes to dictionary entry %u, a different string", (long long)i, idx[i]); }
+                  if (!bad) for (int64_t a = 0; a < nd && !bad; a++) for (int64_t b2 = a + 1; b2 < nd && b2 < a + 40; b2++) if (ds[a].n == ds[b2].n && !memcmp(ds[a].p, ds[b2].p, ds[a].n)) { bad = true; snprintf(why, sizeof why, "dictionary entries %lld and %lld are equal", (long long)a, (long long)b2); break; }
+                  if (bad) FAILF(C12 ? (big ? "scale.dictionary.byte-arrays.carquet-encoded.many-keys" : "dict.byte-arrays.carquet-encoded") : (big ? "scale.dictionary.byte-arrays.self.many-keys" : "dict.byte-arrays.self"), "n=%lld code=%d: %s", (long long)cnt, c, why);
+                  free(ds); free(cds); free(idx); free(dd); free(ii); }
+              carquet_buffer_destroy(&d); carquet_buffer_destroy(&ix); free(v); free(pool);
+          } } }
+}
+
 static void enumerate(void) {
     C12 = !strcmp(mc_mode(), "c12");
     if (!C12) {
@@ -728,6 +809,7 @@ static void enumerate(void) {
     stage_bss();
     stage_plain();
     stage_dict();
+    stage_scale();
 }
 
 int main(int argc, char** argv) { return mc_main(argc, argv, "enc", enumerate); }
